@@ -15,13 +15,14 @@ ACTIVE = ("running", "cooling", "warming")
 # ---------------------------------------------------------------------------
 CONFIGS = {
     # one loom, logical index != physical id, two threads of one process
-    "A2": [{"name": "A", "cpus": [(0, 2), (1, 5)],
+    # (index 0 has physical id 1 and vice versa, so any index/phyid confusion changes a row)
+    "A2": [{"name": "A", "cpus": [(0, 1), (1, 0)],
             "procs": [{"pid": 100, "threads": [101, 102]}]}],
     # + a thread of a second process
     "A3": [{"name": "A", "cpus": [(0, 2), (1, 5)],
             "procs": [{"pid": 100, "threads": [101, 102]}, {"pid": 200, "threads": [201]}]}],
     # two looms: isolation of CPU sets and remote affinity
-    "AB": [{"name": "A", "cpus": [(0, 2), (1, 5)], "procs": [{"pid": 100, "threads": [101, 102]}]},
+    "AB": [{"name": "A", "cpus": [(0, 1), (1, 0)], "procs": [{"pid": 100, "threads": [101, 102]}]},
            {"name": "B", "cpus": [(0, 0)], "procs": [{"pid": 300, "threads": [301]}]}],
     # smallest: one physical cpu
     "A2c1": [{"name": "A", "cpus": [(0, 4)], "procs": [{"pid": 100, "threads": [101, 102]}]}],
